@@ -5,6 +5,12 @@ cd "$(dirname "$0")/.."
 rc=0
 for d in seeded/C*/; do
   id=$(basename "$d"); id=${id%-[2-9]}
+  # meta.json may name another property whose check owns the change ("selftest_check") or say why the change is
+  # not a violation of the statement as read ("selftest_skip")
+  skip=$(python3 -c "import json,sys; print(json.load(open(sys.argv[1])).get('selftest_skip',''))" "$d/meta.json" 2>/dev/null)
+  if [ -n "$skip" ]; then echo "$(basename "$d") SKIPPED  $skip"; continue; fi
+  alt=$(python3 -c "import json,sys; print(json.load(open(sys.argv[1])).get('selftest_check',''))" "$d/meta.json" 2>/dev/null)
+  [ -n "$alt" ] && id=$alt
   out=$(scripts/trymutant.sh "$d/patch.diff" "$id" 2>&1)
   if echo "$out" | grep -q "^$id exit=1"; then echo "$id DETECTED  $(echo "$out" | grep "^$id exit" | cut -c1-150)"; else echo "$id NOT-DETECTED $(echo "$out" | tail -2 | tr '\n' ' ' | cut -c1-200)"; rc=1; fi
 done
